@@ -54,7 +54,24 @@ def gen_case(rng, quick=True):
     overlap = rng.random() < 0.3
     dem = [rng.choice([0, 0, 1, 2, 3, 5]) for _ in range(n)]
     ln = [rng.choice([0, 10, 20, 35, 50]) for _ in links]
-    return dict(n=n, links=links, layer=layer, overlap=overlap, dem=dem, len=ln, dup=dup)
+    c = dict(n=n, links=links, layer=layer, overlap=overlap, dem=dem, len=ln, dup=dup)
+    if rng.random() < 0.3:
+        # demand / length Series that do not list every name, or list names that are no nodes / links of the graph
+        # (the code sums over `index.intersection`: a missing name counts 0, an unknown one is ignored)
+        c["dem_missing"] = sorted(rng.sample(range(n), rng.randint(0, min(n, 3))))
+        c["len_missing"] = sorted(rng.sample(range(len(links)), rng.randint(0, min(len(links), 3))))
+        c["extra_names"] = rng.random() < 0.6
+    return c
+
+
+def effective(c):
+    """the case as the attribute formulas see it: names missing from the Series count 0"""
+    if not (c.get("dem_missing") or c.get("len_missing")):
+        return c
+    e = dict(c)
+    e["dem"] = [0 if i in c.get("dem_missing", []) else d for i, d in enumerate(c["dem"])]
+    e["len"] = [0 if i in c.get("len_missing", []) else d for i, d in enumerate(c["len"])]
+    return e
 
 
 def names(c):
@@ -127,6 +144,7 @@ class CCWatch:
         def wrapped(G):
             comps = [set(c) for c in self.orig(G)]
             self.calls += 1
+            self.last = comps
             allnodes = set(G.nodes())
             if set().union(*comps) != allnodes if comps else allnodes:
                 self.problems.append("components do not cover the nodes")
@@ -179,6 +197,9 @@ def run_impl(wntr, c):
                 out["seg_exc"] = "%s: %s" % (type(e).__name__, e)
                 return out
         out["cc_problems"] = w.problems
+        out["cc_calls"] = w.calls
+        where = {u: k for k, comp in enumerate(getattr(w, "last", [])) for u in comp}
+        out["cc_partition"] = [where.get(x) for x in nn] if w.calls else None
         out["node_index_ok"] = sorted(ns.index) == sorted(nn)
         out["link_index_ok"] = sorted(ls.index) == sorted(ln)
         if not (out["node_index_ok"] and out["link_index_ok"]):
@@ -190,6 +211,13 @@ def run_impl(wntr, c):
         out["layer_index_after"] = [int(i) for i in layer.index]
         dem = pd.Series([float(x) for x in c["dem"]], index=nn)
         length = pd.Series([float(x) for x in c["len"]], index=ln)
+        if c.get("dem_missing"):
+            dem = dem.drop([nn[i] for i in c["dem_missing"]])
+        if c.get("len_missing"):
+            length = length.drop([ln[i] for i in c["len_missing"]])
+        if c.get("extra_names"):
+            dem = pd.concat([dem, pd.Series([7.0, 11.0], index=["ghost-node-1", "ghost-node-2"])])
+            length = pd.concat([pd.Series([13.0], index=["ghost-link-1"]), length])
         try:
             at = topo.valve_segment_attributes(layer, ns, ls, demand=dem, length=length)
             out["attrs"] = {int(i): (int(at.loc[i, "num_surround"]), float(at.loc[i, "demand_increase"]), float(at.loc[i, "length_increase"]))
@@ -200,6 +228,7 @@ def run_impl(wntr, c):
 
 
 def line_of(c):
+    c = effective(c)
     return "seg %d | %s | %s | %s | %s" % (
         c["n"], ",".join("%d-%d" % l for l in c["links"]), ",".join("%d-%d" % tuple(r) for r in c["layer"]),
         " ".join("%d/1" % d for d in c["dem"]), " ".join("%d/1" % d for d in c["len"]))
@@ -221,7 +250,8 @@ def parse_model(s):
         if t:
             i, num, d, l = t.split(":")
             at[int(i)] = (int(num), Fraction(d), Fraction(l))
-    return nl, ll, sz, at
+    cp = [int(x) for x in f["CP"].split(",")] if f.get("CP") else []
+    return nl, ll, sz, at, cp
 
 
 class C18(Check):
@@ -235,12 +265,17 @@ class C18(Check):
         "allowed) and every component function satisfying the connected-components contract: all labels are positive, two elements "
         "(nodes or links) get the same label iff they are joined in the valve-cut incidence graph (labels_partition_spec), segment sizes "
         "count their members, num_surround counts the other valves touching either segment and is 0 for equal sides, and the "
-        "demand/length increase is (a+b)/max(a,b)-1 = min/max, 0 when both are 0. The tie is a differential run of the real "
+        "demand/length increase is (a+b)/max(a,b)-1 = min/max, 0 when both are 0. The contract is PROVED for a concrete components "
+        "function (compChecked: n sweeps of min-label relaxation + closure test; compChecked_ok), so labels_partition_concrete has no "
+        "hypothesis on networkx; networkx.connected_components is tied to it by an explicit differential oracle on every generated graph. The tie is a differential run of the real "
         "valve_segments + valve_segment_attributes (same DataFrame) against the Lean driver and an independent union-find.",
         design_ref="DESIGN.md §5 C18, §4 M9",
         note="trusted: Lean kernel, axioms {propext, Classical.choice, Quot.sound}; the correspondence harness. Modelled, not verified: "
-        "networkx.connected_components (a parameter with contract CompOk; the contract is checked on every observed call), pandas "
-        "containers. The model writes the seg_index counters in closed form and `V_list` as a filter; self-loops and layers whose rows "
+        "networkx.connected_components (a parameter with contract CompOk; the contract is checked on every observed call and its partition is "
+        "compared with the Lean components function, for which CompOk is a theorem), pandas containers. A name missing from the demand / length "
+        "Series counts 0 and a name that is no node / link is ignored (index.intersection; modelled, generated). Rows naming an unknown link are "
+        "ignored by valve_segments and raise KeyError in valve_segment_attributes; a known link with a node that is not its end raises ValueError: "
+        "such layers are outside the statement (recorded in the evidence, not judged). The model writes the seg_index counters in closed form and `V_list` as a filter; self-loops and layers whose rows "
         "do not name an end of their link are outside the statement (the model answers `invalid`).",
         technique="Lean 4 proof (abstract labelling characterisation + path induction) + differential run against the Lean driver",
     )
@@ -262,7 +297,9 @@ class C18(Check):
         return
 
     def judge(self, ctx, c, out, failures, broken, model_line):
-        sn, sl, sattr = spec(c)
+        sn, sl, sattr = spec(effective(c))
+        if c.get("dem_missing") or c.get("len_missing") or c.get("extra_names"):
+            ctx.count("attributes:series-missing-or-extra-names")
         nontriv = bool(c["layer"]) and len(set(sn + sl)) > 1
         ctx.case(("seg", json.dumps(c, sort_keys=True)), nontriv)
         ctx.count("layer:dup" if c["dup"] else "layer:nodup")
@@ -321,7 +358,15 @@ class C18(Check):
         if m is None:
             broken.append(Broken("correspondence", "M9 driver", "driver answered %r for %s" % (model_line, line_of(c))))
             return
-        mn, ml, msz, mat = m
+        mn, ml, msz, mat, mcp = m
+        # explicit oracle for the trusted library call: the partition networkx.connected_components returned for the graph
+        # without the valved links vs the one of the Lean components function (proved to satisfy CompOk)
+        if out.get("cc_partition") is not None:
+            same = canon(out["cc_partition"]) == canon(mcp)
+            ctx.count("networkx-vs-lean-components:" + ("agree" if same else "DISAGREE"))
+            if not same:
+                broken.append(Broken("correspondence", "networkx.connected_components vs Lean compChecked",
+                                     "%s\nnetworkx %s\nlean     %s" % (line_of(c), canon(out["cc_partition"]), canon(mcp))))
         if canon(mn + ml) != canon(out["node"] + out["link"]) or any(x <= 0 for x in mn + ml):
             broken.append(Broken("correspondence", "M9 labels vs valve_segments", "%s\nimpl  %s %s\nmodel %s %s" % (line_of(c), out["node"], out["link"], mn, ml)))
             self._save(c)
@@ -375,7 +420,40 @@ class C18(Check):
         cases = [self._fix(item) for _, item in vlib.corpus_items("C18")]
         cases += [gen_case(ctx.rng, ctx.quick) for _ in range(250 if ctx.quick else 2500)]
         self._run_cases(ctx, cases, failures, broken)
+        self._outside_statement(ctx)
         return failures, broken
+
+    def _outside_statement(self, ctx):
+        """layers whose rows do not name a link of the graph and one of its ends are no valve layers in the sense of the statement
+        (the Lean model answers `invalid`): what the code does with them is recorded, not judged"""
+        import networkx as nx
+        import pandas as pd
+        import wntr.metrics.topographic as topo
+
+        def G0():
+            G = nx.MultiDiGraph()
+            for x in "ABCD":
+                G.add_node(x)
+            G.add_edge("A", "B", key="L1"); G.add_edge("B", "C", key="L2"); G.add_edge("C", "D", key="L3")
+            return G
+
+        probes = {"unknown-link": [("L9", "A"), ("L2", "B")], "unknown-node": [("L2", "Z"), ("L1", "A")],
+                  "node-not-an-end": [("L1", "D"), ("L2", "B")], "unknown-link-and-node": [("L9", "Z")]}
+        for nm, rows in probes.items():
+            layer = pd.DataFrame(rows, columns=["link", "node"])
+            with warnings.catch_warnings():
+                warnings.simplefilter("ignore")
+                try:
+                    ns, ls, _ = topo.valve_segments(G0(), layer)
+                    seg = "segments-as-if-row-absent" if len(set(ns.values)) <= 2 else "segments-returned"
+                except Exception as e:
+                    ctx.count("outside-statement %s: valve_segments raises %s" % (nm, type(e).__name__))
+                    continue
+                try:
+                    topo.valve_segment_attributes(layer, ns, ls)
+                    ctx.count("outside-statement %s: %s, attributes returned" % (nm, seg))
+                except Exception as e:
+                    ctx.count("outside-statement %s: %s, attributes raise %s" % (nm, seg, type(e).__name__))
 
     def search(self, ctx, broken):
         failures, b2 = [], []
